@@ -8,7 +8,7 @@ import re
 from facts import place as mkplace
 from base import CutPolicy, Cut, where, show, exact_origins, all_origins, flat_atoms
 from absint import tagvals, vfield, EMPTY, const_of
-from rules.common import effects_signature, PredTrue, pred_test
+from rules.common import effects_signature, PredTrue, pred_test, opmap, exact_origins
 from rules.C15 import raw_storage_and_namespaces, CONTRACTS
 
 EXPLANATION = ("static analysis: complete enumeration of SubMsg constructors and their reply modes over every execute/reply "
@@ -68,13 +68,16 @@ def run(W, chk):
             okid = const_of(idv) in ("1_u64", "1")
             chk.expect(okid, "ERR-submsg-table", inst, "reply_on_success with SINGLE_SIDE_LIQUIDITY_PROVISION_REPLY_ID",
                        "reply id is %s" % show(idv), where(e))
-        elif mode == "Error" and c == "farm_manager" and "close_farms" in chain:
+        elif mode == "Error" and c == "farm_manager":
             msg = e.extra["dargs"][0]
-            is_send = "Bank" in msg.fields and "Send" in vfield(msg, "Bank").fields or "Send" in show(msg)[:4000]
+            snd = vfield(vfield(vfield(msg, "Bank"), "0"), "Send")
+            to = exact_origins(vfield(snd, "to_address"))
+            am = opmap(vfield(vfield(vfield(snd, "amount"), "[*]"), "amount"))
+            is_refund = to == {"Store(FARMS).owner"} and set(am) == {"Store(FARMS).farm_asset.amount", "Store(FARMS).claimed_amount"}
             okid = const_of(idv) in ("1_u64", "1")
-            chk.expect(is_send and okid, "ERR-submsg-table", inst,
-                       "reply_on_error(id CLOSE_FARMS_ERR_REPLY_CODE) wraps a single BankMsg::Send built in close_farms",
-                       "tolerated sub-message is not the refund Send / id %s" % show(idv), where(e))
+            chk.expect(is_refund and okid, "ERR-submsg-table", inst,
+                       "reply_on_error(id CLOSE_FARMS_ERR_REPLY_CODE) wraps exactly the close refund: Send(farm owner, budget - claimed)",
+                       "the tolerated sub-message is not the farm-close refund (to %s, amount from %s) / id %s" % (sorted(to), sorted(am), show(idv)), where(e))
         else:
             chk.fail("ERR-submsg-table", inst, "sub-message with reply mode %s is not in the table "
                      "(reply_always / reply_on_error would let a failure commit partial state)" % mode, where(e))
@@ -182,11 +185,53 @@ def uses_of_local(b, local):
     return n
 
 
+PURE_EXTERNAL = re.compile(r"(checked_|saturating_|try_fold|from_atomics|transpose|query_wasm_smart|query_balance|query_supply|QuerierWrapper|"
+                           r"may_load|::load$|::range|::prefix|::keys|parse$|from_str$|try_from$|try_into$|::next$|addr_validate|from_json|to_json|"
+                           r"get_contract_version|Version::parse|checked_from_ratio|try_for_each|iter::Iterator|one_coin|must_pay|nonpayable|is_owner)")
+WRITE_EXTERNAL = re.compile(r"(::save$|::update$|::remove$|::replace$|update_ownership|initialize_owner|set_contract_version|wasm_execute)")
+_EFF = {}
+
+
+def effect_free(W, fid):
+    """does the local function reach no storage write and no outgoing message (analysed on its own)?"""
+    if fid not in _EFF:
+        try:
+            H = W.run_fn(fid)
+            _EFF[fid] = not H.effects()
+        except Exception:
+            _EFF[fid] = False
+    return _EFF[fid]
+
+
+def callee_id_of_local(b, local):
+    for _ in range(4):
+        src = None
+        for blk in b.blocks:
+            t = blk["term"]
+            if t["k"] == "call" and t["dest"]["l"] == local and not t["dest"]["p"]:
+                return t.get("resolved_id") or t.get("callee_id")
+            for s_ in blk["stmts"]:
+                if s_["k"] == "assign" and s_["lhs"]["l"] == local and not s_["lhs"]["p"]:
+                    if s_["rv"]["k"] == "use":
+                        op = s_["rv"]["op"]
+                        if op["k"] in ("copy", "move") and not op["place"]["p"]:
+                            src = op["place"]["l"]
+                    elif s_["rv"]["k"] == "ref" and not s_["rv"]["place"]["p"]:
+                        src = s_["rv"]["place"]["l"]
+        if src is None:
+            return None
+        local = src
+    return None
+
+
 def swallow_scan(W, chk):
+    """Every place where a Result is consumed without propagating its error (ok / unwrap_or* / is_ok / is_err / match not
+    from `?` / dropped) must swallow an effect-free computation: then the discarded failure is that of a read or a pure
+    computation and nothing of it can persist.  Decided per site by analysing the swallowed callee."""
     sites = []
     for c in CONTRACTS:
         for b in W.F.fns(c):
-            if b.kind == "const" or re.search(r"::error::|\{impl#\d+\}::(fmt|eq|clone|source|from)$", b.id):
+            if b.kind in ("const", "promoted") or re.search(r"::error::|\{impl#\d+\}::(fmt|eq|clone|source|from)$", b.id):
                 continue
             for bi, blk in enumerate(b.blocks):
                 if blk["cleanup"]:
@@ -197,36 +242,36 @@ def swallow_scan(W, chk):
                     meth = nm.rsplit("::", 1)[-1]
                     if "result::Result" in nm and meth in SWALLOWERS and t["args"]:
                         a0 = t["args"][0]
-                        src = callee_of_local(b, a0["place"]["l"]) if a0.get("k") in ("copy", "move") else "?"
-                        sites.append((b, t.get("span", ""), meth, src))
-                    # `let _ = fallible()` / dropped Result: Result-typed destination never read
+                        loc = a0["place"]["l"] if a0.get("k") in ("copy", "move") else None
+                        sites.append((b, t.get("span", ""), meth, callee_of_local(b, loc) if loc is not None else "?", callee_id_of_local(b, loc) if loc is not None else None))
                     d = t["dest"]
                     if not d["p"] and d["l"] != 0:
                         ty = b.locals[d["l"]]
                         if ty.startswith("std::result::Result<") and uses_of_local(b, d["l"]) == 0:
-                            sites.append((b, t.get("span", ""), "dropped", nm))
-                # `if let Ok(..) = r` / match on a Result that is not the `?` desugaring
-                for s in blk["stmts"]:
-                    if s["k"] == "assign" and s["rv"]["k"] == "discr" and s["rv"].get("adt") == "std::result::Result":
-                        pl = s["rv"]["place"]
+                            sites.append((b, t.get("span", ""), "dropped", nm, t.get("resolved_id") or t.get("callee_id")))
+                for s_ in blk["stmts"]:
+                    if s_["k"] == "assign" and s_["rv"]["k"] == "discr" and s_["rv"].get("adt") == "std::result::Result":
+                        pl = s_["rv"]["place"]
                         src = callee_of_local(b, pl["l"])
                         if "Try" in src and "branch" in src:
                             continue
-                        sites.append((b, s.get("span", ""), "match", src))
-    for (b, span, meth, src) in sites:
+                        sites.append((b, s_.get("span", ""), "match", src, callee_id_of_local(b, pl["l"])))
+    for (b, span, meth, src, sid) in sites:
         inst = "%s:%s(%s)" % (b.id, meth, re.sub(r"<[^<>]*>", "", src).split("::")[-1])
         reason = None
-        for (fpat, cpat, why) in SWALLOW_OK:
-            if re.search(fpat, b.id) and re.search(cpat, src):
-                reason = why
-        if meth == "match" and b.id.endswith("state::get_earliest_address_lp_weight"):
-            reason = "re-raises every arm (Ok(None) -> Err, Err -> Err)"
-        if meth == "match" and re.search(r"state::(has_any_lp_weight|get_latest_address_lp_weight)$|position::helpers::return_latest_weight$", b.id):
-            reason = "Err arm re-raised; None mapped to the documented default"
-        if meth == "match" and re.search(r"farm::commands::compute_contract_weights$", b.id):
-            reason = "Err arm converted into an Err return"
+        if sid and W.F.get(sid) is not None:
+            if effect_free(W, sid):
+                reason = "swallowed callee `%s` is effect-free (analysed: no storage write, no outgoing message)" % sid.split("::", 1)[-1]
+        elif src == "?":
+            # the Result is a parameter / a field: nothing is computed here; the enclosing function must be effect-free
+            if effect_free(W, b.id):
+                reason = "Result received as a value; the enclosing function is effect-free"
+        elif WRITE_EXTERNAL.search(src):
+            reason = None
+        elif PURE_EXTERNAL.search(src):
+            reason = "swallowed external `%s` is a read / pure computation" % re.sub(r"<[^<>]*>", "", src)[-50:]
         if reason:
             chk.ok("ERR-swallow-site", inst, reason)
         else:
             chk.fail("ERR-swallow-site", inst,
-                     "Result of `%s` is swallowed by `%s` at a site that is not in the reasoned table" % (src[-80:], meth), span)
+                     "Result of `%s` is swallowed by `%s` and the swallowed computation is not known to be effect-free" % (src[-80:], meth), span)
